@@ -53,10 +53,21 @@ RULE = ("cases = scenario templates over a catalogue of 44 class specifications 
         "every fifth scenario of any template; "
         "(0f) THREADS: definitions run in the main thread, one worker thread per universe, or a fresh thread each, while "
         "the shared counting attrs are created in another fresh thread (classic counter-ordered bodies mixing both); "
+        "(0g) MODULE + TRANSFORMERS: every body is executed in a synthetic module registered in sys.modules for the life of "
+        "its universe; each definition binds and REBINDS names there (Base, field thunks, `Ann`, `Ann_<class>`), a third "
+        "of the bodies annotate with those names as STRINGS; decorators and make_class calls over shared these/attrs "
+        "dicts and shared counting attrs carry field_transformers that observe (alias None-ness, inherited, kw_only, "
+        "default) or act on (alias) what they are handed; "
         "(5) shared counting attrs (also re-declared base fields) with @ca.validator/@ca.default between definitions; (6) fields over shared "
         "argument containers with appends between definitions; (7) random mixtures with histories up to 6 steps. "
         "non-trivial = the history contains at least one definition that succeeded; distinct = distinct JSON case")
 ASSUMPTIONS = [
+    "the module a body is executed in belongs to the inputs of its definition: names an earlier definition left there are "
+    "legitimately visible; what is demanded is that typing.get_type_hints of the generated __init__ resolves the body's "
+    "string annotations to the objects bound when THIS class was defined (owner-tagged) and equally in both universes; "
+    "globals of generated methods whose names the class's module also binds are the module's and are not walked",
+    "no two classes of a universe may share one Attribute object (own fields and inherited copies alike): folded into "
+    "foreignFree; what a field_transformer was handed is part of the fingerprint",
     "converters are closures of ONE factory (one __code__) whose annotations are owner-tagged marker types: the ownership "
     "oracle also covers every annotation found on generated methods, Converter.__call__ and pipe()/optional() results; the "
     "globals a generated method shares with its class's module are the module's, not attrs's, and are not walked",
@@ -333,8 +344,8 @@ def _rand_deco(rng):
         x["weakref_slot"] = rng.random() < 0.5
     if rng.random() < 0.3:
         x["match_args"] = rng.random() < 0.5
-    if rng.random() < 0.15:
-        x["ft"] = True
+    if rng.random() < 0.2:
+        x["ft"] = rng.choice([True, "observe", "alias"])
     if rng.random() < 0.15:
         x["getstate_setstate"] = True
     if a["hash"] is not None and "hashKw" not in x:
@@ -431,6 +442,9 @@ def t_these(rng):
     decos = [copy.deepcopy(rng.choice(list(THESE_DECOS.values()))) for _ in range(k)]
     if rng.random() < 0.4:
         decos[-1] = _rand_deco(rng)
+    for d in decos:
+        if rng.random() < 0.5:           # a field_transformer that observes / acts on what it is handed
+            d.setdefault("x", {})["ft"] = rng.choice(["observe", "alias"])
     these = copy.deepcopy(rng.choice(THESE_SETS))
     n = rng.randint(1, 3)
     ns = _names(rng, n + 1)
@@ -444,6 +458,8 @@ def _mk_step(rng, hooks_present=True):
     st = defMk(a, useList=rng.random() < 0.2, base=rng.choice(["object", "object", "plain", "mutableAttrS", "frozenAttrS", "exc"]),
                withBody=rng.random() < 0.5)
     st["defMk"]["m"]["x"] = {"name": rng.choice(["M", "M", "N"])}
+    if rng.random() < 0.4:
+        a.setdefault("x", {})["ft"] = rng.choice(["observe", "alias", True])
     return st
 
 
@@ -884,6 +900,12 @@ def gen_cases(tier, rng):
             c = with_use(c, rng)
         elif i % 10 == 3:
             c = with_threads(c, rng)
+        # string annotations naming what the module binds / rebinds right before each body (harness-only)
+        for st in list(c["steps"]) + [c["target"]]:
+            if isinstance(st, dict) and "defDeco" in st:
+                x = st["defDeco"]["c"].setdefault("x", {})
+                if "strAnn" not in x and rng.random() < 0.35:
+                    x["strAnn"] = True
         yield c
 
 
@@ -959,6 +981,12 @@ def _observe2(case, worlds):
     # no class of either universe ever holds or runs a callable of another class (of any universe, of any case)
     fps = [deep_a, deep_b] + [x for x, _ in again + bases_again] + [d for _, d in again + bases_again] + list(wb.base_fp.values())
     foreign_free = all(not (isinstance(f, dict) and f.get("foreign")) for f in fps)
+    # ... and no two classes of the universe share one Attribute object (each class owns its fields, copies included)
+    seen_attrs = {}
+    for c in list(wa.made) + [b for b in list(wa.bases.values()) + list(wa.roots.values()) if isinstance(b, type)]:
+        for a in c.__dict__.get("__attrs_attrs__", ()):
+            if seen_attrs.setdefault(id(a), c) is not c:
+                foreign_free = False
     return {
         "after": after, "alone": alone, "hist": hist,
         "cellsAfter": wa.final_cells(),
